@@ -30,7 +30,7 @@ func TestOneMeaningEverywhere(t *testing.T) {
 	run := vf.Cur()
 	sub := run.Sub("one-meaning-everywhere", "a real app (virtual time) whose configuration uses ONE generated matcher list (1-2 matchers, all operators, regexes, UTF-8 names, hostile values) as the matchers of a child route and as the target matchers of an inhibition rule whose source alert is firing; 6 alerts over the vocabulary (missing labels, empty-looking and multi-line values); compared with the reference verdict per alert: the receivers GET /alerts reports (child route vs root), inhibitedBy, the result of GET /alerts?filter=<printed matchers>, and - after the same list was posted as a silence through the API - silencedBy; non-trivial = the list contains a regex, a negation or a non-classic name and both verdicts occur among the alerts; distinct by (matchers, alerts)", 40)
 	n := run.N(320, 12000)
-	vals := []string{"a", "b", "ab", "a.b", "axb", "xz", "1", "12", "a\nb", "éé", "{x}", "a,b", "bar", "A", `q"q`, `b\s`, " lead"}
+	vals := []string{"ax", "xb", "a", "b", "ab", "a.b", "axb", "xz", "1", "12", "a\nb", "éé", "{x}", "a,b", "bar", "A", `q"q`, `b\s`, " lead"}
 	names := []string{"foo", "a1", "fóo", "a b"}
 	vf.Parallel(t, n, 16, func(t *testing.T, i int) {
 		r := sub.Rand(i)
